@@ -266,3 +266,5 @@ def run(c, chk):
     sub = report.SubCheck(chk, 'R10.6', 'C11', only=('R11.2', 'R11.5', 'R11.7'))
     c11.run(c, sub)
     sub.done('unresolvable paths')
+    # R10.7: a call of the wrong type can only be refused where the type is tested
+    c09.typed_members(c, chk, 'R10.7')
